@@ -290,3 +290,8 @@ def run(repo: Repo, rep: Report, tier: str) -> None:
     from ..delegate import delegate
     rep.rule("provider-survives", "ARTIM cannot expire in the release states (Sta7-Sta12) unless Table 9-10 defines Evt18 there (C05's artim rule)")
     delegate(repo, rep, tier, "C05", ("artim",), "provider-survives", "the provider thread dies between the peer's A-RELEASE-RQ and pynetdicom's answer: neither A-RELEASE-RP nor A-ABORT is ever sent", only=lambda f: any(f"Sta{k}" in (f["key"].get("stmt", "") + f["detail"]) for k in (7, 8, 9, 10, 11, 12)))
+
+    # ---- the association thread reaches its reactor ---------------------------------------------------
+    from ..lints import contextmanagers_yield_once
+    rep.rule("thread-starts", "every @contextmanager the association thread enters yields exactly once on every path (Association.run wraps its reactor in set_timer_resolution)")
+    rep.floor("context managers checked", contextmanagers_yield_once(repo, rep, "thread-starts"), 1)
